@@ -146,6 +146,9 @@ def run_case(case: dict) -> CaseResult:
 
     async def on_connect():
         env.log("rl_on_connect")
+        if case.get("name_late") and not rl.name:
+            # the application learns the device's name from the first session and tells the manager (public attribute)
+            rl.name = "dev"
         if cb_delay.get("connect"):
             await asyncio.sleep(cb_delay["connect"] / 64)
         env.log("rl_on_connect_ret")
@@ -463,6 +466,9 @@ def judge(env, world, case, viol, classes) -> None:
                 slot_set_seq = e["seq"]
                 classes.add(f"backoff_n{min(n, 8)}")
         elif k == "rl_on_connect":
+            if case.get("name_late"):
+                named = True
+                classes.add("name_set_after_first_session")
             in_on_connect = True
             cb_seq.append("c")
             if streak >= 2:
@@ -618,6 +624,8 @@ def _case(draw, tier):
             events.append({"t": tt, "do": "end", "how": "reset"})
     events.sort(key=lambda e: e["t"])
     case = {"named": draw(st.integers(0, 5)) != 0, "addr": draw(st.sampled_from(["ip", "ip", "name", "mdns", "mdns_dot", "bare"])), "K": 4.0, "plan": plan, "events": events, "horizon": draw(st.sampled_from([200, 400]))}
+    if not case["named"] and case["addr"] in ("ip", "name") and draw(st.booleans()):
+        case["name_late"] = True
     if draw(st.integers(0, 3)) == 0:
         # slow user callbacks; start()/stop() racing with a callback that is still running is outside the statement,
         # so these histories keep only the initial start()
@@ -655,6 +663,15 @@ def _local_end_cases():
             yield {"named": True, "addr": "ip", "K": 4.0, "plan": [["ok"]] + after, "events": [{"t": 0, "do": "start"}, {"t": 128, "do": "end", "how": how}], "horizon": 60}
 
 
+def _late_name_cases():
+    """Manager built without a name (IP address, no name=); the application sets .name once the first session told it."""
+    for rec in ("ptr", "a", "other_ptr", "other_a"):
+        for how in ("reset", "discreq"):
+            for k in (2, 4):
+                yield {"named": False, "name_late": True, "addr": "ip", "K": 4.0, "plan": [["ok"]] + [["refuse", 2]] * k + [["ok"]],
+                       "events": [{"t": 0, "do": "start"}, {"t": 128, "do": "end", "how": how}, {"t": 128 + 64 * (6 + 2 * k), "do": "mdns", "rec": rec}], "horizon": 120}
+
+
 def _stop_in_flight_restart_cases():
     """stop() while an attempt is in flight, start() again shortly after, the new attempt still at the TCP stage when
     whatever the stopped attempt left behind would be due."""
@@ -668,6 +685,7 @@ def _stop_in_flight_restart_cases():
 
 def enumerated(tier):
     yield from _stop_in_flight_restart_cases()
+    yield from _late_name_cases()
     yield from _local_end_cases()
     yield from _derived_name_cases()
     yield from _mdns_addr_cases()
